@@ -29,6 +29,7 @@ func runC01(c *Ctx) {
 	spdxConstants(c)
 	spdxFlow(c, "C01")
 	spdxLoops(c, "C01")
+	readerValueUntransformed(c, "reader-value-untransformed", pkgFilter(c.reachDecls("reader-value-untransformed", spdxUnser), "unserializers."))
 }
 
 // spdxTables: C01-D1, D2.
